@@ -36,19 +36,49 @@ class Obj:
 
 
 class State:
-    __slots__ = ("env", "conds", "status", "ret", "events", "_broke")
+    __slots__ = ("env", "conds", "status", "ret", "events", "_broke", "alias")
 
-    def __init__(self, env=None, conds=None, events=None):
+    def __init__(self, env=None, conds=None, events=None, alias=None):
         self.env = dict(env or {})
         self.conds = list(conds or [])
         self.status = "live"  # live | return | raise
         self.ret = None
         self.events = list(events or [])
         self._broke = None
+        self.alias = dict(alias or {})  # key -> key it was bound from without a copy (`x = self.x`): in-place updates reach both
 
     def fork(self):
-        s = State(self.env, self.conds, self.events)
+        s = State(self.env, self.conds, self.events, self.alias)
         return s
+
+    # ---- aliases: names bound to the very same array object
+    def root(self, k):
+        seen = set()
+        while k in self.alias and k not in seen:
+            seen.add(k)
+            k = self.alias[k]
+        return k
+
+    def same_object(self, k):
+        r = self.root(k)
+        return [k2 for k2 in set(self.alias) | {r} if self.root(k2) == r]
+
+    def rebind(self, k, src=None):
+        """k now names another object: names that were bound from k keep the old object (their link is cut)"""
+        old = self.alias.pop(k, None)
+        for k2, v in list(self.alias.items()):
+            if v == k:
+                if old is not None:
+                    self.alias[k2] = old
+                else:
+                    del self.alias[k2]
+        if src is not None and src != k:
+            self.alias[k] = src
+
+    def update_in_place(self, k, val):
+        for k2 in self.same_object(k):
+            self.env[k2] = val
+        self.env[k] = val
 
 
 CMP = {ast.Lt: "lt", ast.LtE: "le", ast.Eq: "eq", ast.NotEq: "ne", ast.Is: "is", ast.IsNot: "isnot",
@@ -146,6 +176,19 @@ def concat(a, b):
     if len(parts) == 1:
         return parts[0]
     return T.app("concat", *parts)
+
+
+def _load_known():
+    import os
+    p = os.path.join(os.path.dirname(os.path.abspath(__file__)), "known_funcs.txt")
+    try:
+        with open(p) as fh:
+            return {ln.strip() for ln in fh if ln.strip() and not ln.startswith("#")}
+    except OSError:
+        return None
+
+
+KNOWN_FUNCS = _load_known()
 
 
 class VN:
@@ -538,6 +581,17 @@ class VN:
         env2 = State(st.env, st.conds)
         iters = []
         k = 0
+        if len(e.generators) == 1 and not e.generators[0].ifs:
+            # a comprehension over a sequence of statically known length is the tuple of its element values (as the loop it abbreviates
+            # would be unrolled)
+            it0 = self.ev(e.generators[0].iter, env2)
+            if is_tuple(it0) and len(it0) <= 16:
+                vals = []
+                for elem in it0:
+                    env3 = State(st.env, st.conds, alias=st.alias)
+                    self.assign(e.generators[0].target, elem, env3, e)
+                    vals.append(self.ev(e.elt, env3))
+                return tuple(vals)
         for g in e.generators:
             it = self.ev(g.iter, env2)
             # zip(a, b) -> parallel iteration
@@ -670,6 +724,16 @@ class VN:
                 return args[0]
             if fn.qual in self.inline and self.depth < self.max_depth:
                 return self.inline_call(fn, e, st)
+            if KNOWN_FUNCS is not None and fn.qual not in KNOWN_FUNCS and self.depth < self.max_depth and not fn.name.startswith("__"):
+                # a helper the rules have never seen (extracted by a later edit): read through it when it is a single-path, loop-free
+                # function; otherwise it stays an opaque application and the comparison decides
+                snap_env, snap_ev = dict(st.env), list(st.events)
+                try:
+                    return self.inline_call(fn, e, st)
+                except Unrecognised:
+                    st.env.clear()
+                    st.env.update(snap_env)
+                    st.events[:] = snap_ev
             bound = self.bind_values(fn, e, st, argcache)
             return T.app("fn:" + fn.qual, *[T.app("kw:" + p, self._as_term(bound[p])) for p in sorted(bound)])
         if tgt is not None and tgt[0] == "class":
@@ -756,22 +820,35 @@ class VN:
             k = self.key_of(node)
             if k is not None:
                 back[p] = k
+        # a method called on self shares the object's attributes with the caller
+        is_self_call = isinstance(call.func, ast.Attribute) and isinstance(call.func.value, ast.Name) and call.func.value.id == "self" and fn.cls is not None
+        if is_self_call:
+            for k0, v0 in st.env.items():
+                if k0 == "self" or k0.startswith("self."):
+                    env.setdefault(k0, v0)
         sub = VN(self.model, fn, self.real, self.scalars, self.inline, self.max_depth, self.depth + 1,
-                 self.call_hook, None, self.loop_hook)
-        outs = sub.run(fn.body, State(env, []))
+                 self.call_hook, self.name_hook if is_self_call else None, self.loop_hook)
+        outs = [o_ for o_ in sub.run(fn.body, State(env, list(st.conds))) if o_.status != "raise"]
         if len(outs) != 1:
             raise Unrecognised("inlined helper %s has %d paths" % (fn.qual, len(outs)), call)
         o = outs[0]
+        if len(o.conds) != len(st.conds):
+            raise Unrecognised("inlined helper %s branches" % fn.qual, call)
         for p, k in back.items():
             if o.env.get(p) is not env[p] and o.env.get(p) != env[p]:
-                st.env[k] = o.env[p]
+                st.update_in_place(k, o.env[p])
+        if is_self_call:
+            for k0, v0 in o.env.items():
+                if k0.startswith("self.") and (k0 not in st.env or st.env[k0] is not v0):
+                    st.env[k0] = v0
+        st.events.extend(o.events)
         return o.ret if o.status == "return" and o.ret is not None else NONE
 
     def do_copyto(self, call, args, st):
         k = self.key_of(call.args[0])
         if k is None:
             raise Unrecognised("copyto into a non-name", call)
-        st.env[k] = args[1]
+        st.update_in_place(k, args[1])
         return NONE
 
     def method_call(self, f, e, args, kw, st):
@@ -932,7 +1009,59 @@ class VN:
     # ------------------------------------------------------------------ statements
     def run(self, stmts, st=None):
         st = st or State()
-        return self.block(list(stmts), [st])
+        outs = self.block(list(stmts), [st])
+        if self.depth == 0:
+            outs = self.split_ifexp(outs)
+        return outs
+
+    def split_ifexp(self, states, cap=256):
+        """`x = a if c else b` means the same as `if c: x = a  else: x = b`: every final state that still carries a conditional
+        expression is split into the two paths it stands for (the condition joins the path condition), so that both spellings give
+        the same set of (path condition, post-state) pairs"""
+        out = []
+        work = list(states)
+        guard = 0
+        while work:
+            st = work.pop(0)
+            guard += 1
+            if guard > 4 * cap or len(out) + len(work) > cap:
+                out.append(st)
+                continue
+            atom = None
+            for v in [st.ret] + list(st.env.values()):
+                if isinstance(v, (T.Poly, tuple)):
+                    found = T.apps(v, "ifexp")
+                    if found:
+                        atom = found[0]
+                        break
+            if atom is None:
+                out.append(st)
+                continue
+            c, a, b = (T.dec(x) for x in atom[2])
+            nc = negate(c) if isinstance(c, T.Poly) else None
+            branches = []
+            if isinstance(c, T.Poly) and any(c == k for k in st.conds):
+                branches = [(None, a)]
+            elif nc is not None and any(nc == k for k in st.conds):
+                branches = [(None, b)]
+            elif isinstance(c, T.Poly):
+                branches = [(c, a), (nc, b)]
+            else:
+                out.append(st)
+                continue
+            for cond, val in branches:
+                s2 = State(st.env, st.conds, st.events, st.alias)
+                s2.status, s2._broke = st.status, st._broke
+                if cond is not None:
+                    s2.conds.append(cond)
+                repl = val if isinstance(val, T.Poly) else None
+                if repl is None:
+                    out.append(st)
+                    break
+                s2.ret = _replace_atom(st.ret, atom, repl) if isinstance(st.ret, (T.Poly, tuple)) else st.ret
+                s2.env = {k: (_replace_atom(v, atom, repl) if isinstance(v, (T.Poly, tuple)) else v) for k, v in st.env.items()}
+                work.append(s2)
+        return out
 
     def block(self, stmts, states):
         for s in stmts:
@@ -969,7 +1098,7 @@ class VN:
                     st.env[k] = tuple(lst)
                     return
             idx = self._as_term(self.ev(tgt.slice, st))
-            st.env[k] = T.app("setitem", self._as_term(old), idx, self._as_term(val))
+            st.update_in_place(k, T.app("setitem", self._as_term(old), idx, self._as_term(val)))
             st.events.append(("setitem", k, idx, val, node))
             return
         k = self.key_of(tgt)
@@ -980,8 +1109,19 @@ class VN:
     def stmt(self, s, st):
         if isinstance(s, ast.Assign):
             v = self.ev(s.value, st)
+            srck = self.key_of(s.value) if isinstance(s.value, (ast.Name, ast.Attribute)) else None
+            if srck is not None and not (srck in st.env or srck.startswith("self.")) and isinstance(v, T.Poly) and v.single_atom() is None:
+                srck = None
             for t in s.targets:
                 self.assign(t, v, st, s)
+                tk = self.key_of(t) if isinstance(t, (ast.Name, ast.Attribute)) else None
+                if tk is not None:
+                    st.rebind(tk, srck if isinstance(v, T.Poly) else None)
+                elif isinstance(t, (ast.Tuple, ast.List)):
+                    for x in ast.walk(t):
+                        kx = self.key_of(x) if isinstance(x, (ast.Name, ast.Attribute)) else None
+                        if kx is not None:
+                            st.rebind(kx)
             return [st]
         if isinstance(s, ast.AnnAssign):
             if s.value is not None:
@@ -999,7 +1139,7 @@ class VN:
             cur = st.env.get(k)
             if cur is None:
                 cur = self.ev(s.target, st)
-            st.env[k] = self.binop(s.op, cur, v, s)
+            st.update_in_place(k, self.binop(s.op, cur, v, s))  # reaches every name bound to the same array without a copy
             return [st]
         if isinstance(s, ast.Expr):
             if isinstance(s.value, ast.Constant):
@@ -1054,8 +1194,17 @@ class VN:
             st.env[s.name] = Closure(s, st.env, self.func)
             return [st]
         if isinstance(s, (ast.For, ast.While)):
+            # loops every rule can read: a list built by append is the comprehension it spells out (tried first, it is exact); then the
+            # rule's own hook; then a loop over a sequence of statically known length (unrolled)
+            r = append_loop(self, s, st)
+            if r is not None:
+                return r
             if self.loop_hook is not None:
                 r = self.loop_hook(self, s, st)
+                if r is not None:
+                    return r
+            if self.loop_hook is not unroll_loop:
+                r = unroll_loop(self, s, st)
                 if r is not None:
                     return r
             raise Unrecognised("loop inside value-numbered region", s)
@@ -1100,6 +1249,67 @@ def iter_once_while(vn, s, st):
             o.events.append((o.status, None, s))
             o.status = "live"
     return outs
+
+
+def append_loop(vn, s, st):
+    """`acc = []; for t in it: [tmp = ...;] acc.append(E)`  is the comprehension `[E for t in it]` (optionally extending a list built so
+    far).  Recognised only when the body consists of plain temporaries and appends to lists the value numbering already tracks."""
+    if not isinstance(s, ast.For) or s.orelse:
+        return None
+    accs = []
+    for b in s.body:
+        if isinstance(b, ast.Assign) and all(isinstance(t, ast.Name) for t in b.targets):
+            continue
+        if isinstance(b, ast.Expr) and isinstance(b.value, ast.Call) and isinstance(b.value.func, ast.Attribute) and b.value.func.attr == "append" \
+                and len(b.value.args) == 1 and not b.value.keywords:
+            k = vn.key_of(b.value.func.value)
+            cur = st.env.get(k) if k is not None else None
+            if k is None or not (is_tuple(cur) or is_seq(cur)):
+                return None
+            accs.append(k)
+            continue
+        return None
+    if not accs:
+        return None
+    targets = []
+    try:
+        vn._flat_targets(s.target, targets)
+    except Unrecognised:
+        return None
+    it = vn.ev(s.iter, st)
+    if is_tuple(it) and len(it) <= 16:
+        return None  # statically known length: unrolled like the comprehension over it would be
+    sub = State(st.env, st.conds, alias=st.alias)
+    for i, t in enumerate(targets):
+        sub.env[t] = T.sym("@%d" % i, real=True)
+    added = {k: [] for k in accs}
+    for b in s.body:
+        if isinstance(b, ast.Assign):
+            v = vn.ev(b.value, sub)
+            for t in b.targets:
+                sub.env[t.id] = v
+        else:
+            k = vn.key_of(b.value.func.value)
+            added[k].append(vn._as_term(vn.ev(b.value.args[0], sub)))
+    itt = vn._as_term(it)
+    for k, elts in added.items():
+        if len(elts) != 1:
+            return None
+        elt = elts[0]
+        if len(targets) == 1 and elt == T.sym("@0", real=True):
+            comp = itt
+        else:
+            comp = T.app("comp", elt, itt)
+        old = st.env[k]
+        st.env[k] = comp if (is_tuple(old) and len(old) == 0) else concat(old, comp)
+    # temporaries assigned in the body are not defined in terms of a generic iteration afterwards: forget them
+    for b in s.body:
+        if isinstance(b, ast.Assign):
+            for t in b.targets:
+                st.env.pop(t.id, None)
+    for t in targets:
+        st.env.pop(t, None)
+    return [st]
 
 
 def unroll_loop(vn, s, st):
